@@ -1,2 +1,5 @@
 pub mod parser;
 pub mod slices;
+pub mod ranges;
+pub mod chars;
+pub mod splits;
